@@ -50,6 +50,13 @@ def run_property(prop: str, repo: str, tier: str, seed: int, *, write_evidence: 
             from .report import load_known, match_known
             _known = load_known()
             base_clean = all(o.ok or match_known(prop, o, _known) is not None for o in ctx.obligations)
+            # independent audit of call resolution on the functions this property analysed
+            from . import mypy_audit
+            exported = mypy_audit.export(repo) if os.environ.get('EMSVERIF_NO_MYPY') != '1' else None
+            if exported is None:
+                extra['audit_note'] = 'mypy audit not run (mypy not importable in /venv, or disabled)'
+            else:
+                extra.update(mypy_audit.compare(program, set(ctx.functions_analysed), exported))
             from .variants import seed_variants
             variants = list(getattr(mod, 'VARIANTS', [])) + seed_variants(prop)
             if variants and base_clean:
@@ -59,6 +66,9 @@ def run_property(prop: str, repo: str, tier: str, seed: int, *, write_evidence: 
                 extra['selftest_note'] = 'checker self-test skipped: the tree under analysis already violates a rule'
         rc = finish(ctx, started, seed, extra_coverage=extra, write_evidence=write_evidence, quiet=quiet,
                     evidence_dir=evidence_dir, replay_dir=replay_dir)
+        if tier == 'thorough' and extra and extra.get('audit_disagree'):
+            print(f"ANALYSIS-ERROR property={prop} call resolution disagrees with mypy at {len(extra['audit_disagree'])} site(s): {extra['audit_disagree'][0]}")
+            return 2
         if tier == 'thorough' and extra and extra.get('selftest_failed'):
             print(f"ANALYSIS-ERROR property={prop} checker self-test failed: {extra['selftest_failed']}")
             return 2
